@@ -418,6 +418,40 @@ class LinEx(Extractor):
         return self.ctx.sym(name)
 
 
+def _wall_rule(mod, f):
+    """wall = pairs (rlim[i], zlim[i]) when both are present, else None; accepted spellings:
+    if/else, default None + if, negated test; list(zip(..)) or a comprehension over zip(..)"""
+    stores = [s for s in walk_own(f.node) if isinstance(s, ast.Assign) and isinstance(s.targets[0], ast.Name) and s.targets[0].id == "wall"]
+    none_stores = [s for s in stores if isinstance(s.value, ast.Constant) and s.value.value is None]
+    val_stores = [s for s in stores if s not in none_stores]
+    if len(val_stores) != 1 or len(none_stores) != 1:
+        return False
+    v = val_stores[0].value
+    zips = [c for c in ast.walk(v) if isinstance(c, ast.Call) and _dotted(c.func) == "zip" and [T(mod, a) for a in c.args] == [K('data["rlim"]'), K('data["zlim"]')]]
+    if len(zips) != 1:
+        return False
+    if isinstance(v, ast.ListComp):
+        tg = v.generators[0].target
+        if not (isinstance(tg, ast.Tuple) and len(tg.elts) == 2 and isinstance(v.elt, ast.Tuple) and [T(mod, e) for e in v.elt.elts] == [T(mod, e) for e in tg.elts] and not v.generators[0].ifs):
+            return False
+    elif not (isinstance(v, ast.Call) and _dotted(v.func) == "list" and v.args and v.args[0] is zips[0]):
+        return False
+    # the value store is guarded by both presence tests (directly or as the else arm of the negation)
+    present = {K('"rlim" in data'), K('"zlim" in data')}
+    for n in ast.walk(f.node):
+        if isinstance(n, ast.If):
+            t = n.test
+            parts = {T(mod, x) for x in t.values} if isinstance(t, ast.BoolOp) and isinstance(t.op, ast.And) else {T(mod, t)}
+            if parts == present and val_stores[0] in n.body and (none_stores[0] in n.orelse or none_stores[0].lineno < n.lineno):
+                return True
+            absent = {K('"rlim" not in data'), K('"zlim" not in data')}
+            parts_or = {T(mod, x) for x in t.values} if isinstance(t, ast.BoolOp) and isinstance(t.op, ast.Or) else set()
+            neg = isinstance(t, ast.UnaryOp) and isinstance(t.op, ast.Not) and isinstance(t.operand, ast.BoolOp) and {T(mod, x) for x in t.operand.values} == present
+            if (parts_or == absent or neg) and none_stores[0] in n.body and val_stores[0] in n.orelse:
+                return True
+    return False
+
+
 def r4(prog, rep):
     mod = prog.module(TOK)
     f = mod.funcs.get("read_geqdsk")
@@ -444,7 +478,8 @@ def r4(prog, rep):
         detail = "linspace not found"
         if c is not None:
             try:
-                va, vb, vn = [ex.expr(x, env) for x in c.args[:3]]
+                from ..model import inline_temporaries
+                va, vb, vn = [ex.expr(inline_temporaries(f.node, x), env) for x in c.args[:3]]
                 ok = (va - a).is_zero() and (vb - b).is_zero() and (vn - n).is_zero()
                 ep = [k for k in c.keywords if k.arg == "endpoint"]
                 ok = ok and (not ep or (isinstance(ep[0].value, ast.Constant) and ep[0].value.value is True))
@@ -455,7 +490,7 @@ def r4(prog, rep):
     src = T(mod, f.node)
     facts = {
         "psi2D is the file's psi array": K('psi2D=data["psi"]') in src,
-        "the wall is the limiter contour zip(rlim, zlim), None when absent": K('if"rlim"indataand"zlim"indata:wall=list(zip(data["rlim"],data["zlim"]))else:wall=None') in src,
+        "the wall is the limiter contour zip(rlim, zlim), None when absent": _wall_rule(mod, f),
         "pressure and fpol profiles come from pres and fpol": K('pressure=data["pres"]') in src and K('fpol=data["fpol"]') in src,
         "the gfile axis/boundary psi are simagx and sibdry": K('psi_bdry_gfile=data["sibdry"]') in src and K('psi_axis_gfile=data["simagx"]') in src,
     }
